@@ -164,7 +164,7 @@ class UpCCGSD(Ansatz):
                 pauli_words_gates += exp_pauliword_to_gates(pauli_word, coef)
                 self.pauli_to_angles_mapping[current_k][pauli_word] = i + sum_prev_qubit_terms[current_k]
 
-            sum_prev_qubit_terms[current_k + 1] = len(qubit_op.terms.items())
+            sum_prev_qubit_terms[current_k + 1] = sum_prev_qubit_terms[current_k] + len(qubit_op.terms.items())
 
         upccgsd_circuit = Circuit(pauli_words_gates)
 
